@@ -6,7 +6,7 @@ from .. import codec, gen
 from ..core import Prop, Case, obs_rows, obs_exc
 
 TYPES = {'int': int, 'bool': bool, 'float': float, 'str': str, 'bytes': bytes, 'tuple': tuple, 'NoneType': type(None)}
-USER = {0: lambda v: v >= 2, 1: lambda v: v is None}
+USER = {0: lambda v: v >= 2, 1: lambda v: v is None, 3: lambda v: v}     # 3: a predicate that is not a bool
 
 
 def _no_lists(x):
@@ -107,8 +107,8 @@ class C13(Prop):
         return (hdr,) + tuple(rows)
 
     def _preds(self, rng):
-        c = refvalue(rng)
-        c2 = refvalue(rng)
+        c = refvalue(rng) if rng.random() > 0.15 else None
+        c2 = refvalue(rng) if rng.random() > 0.15 else None
         yield ('eq', c)
         yield ('ne', c)
         for t in ('lt', 'le', 'gt', 'ge'):
@@ -123,6 +123,7 @@ class C13(Prop):
         yield ('false',)
         yield ('isinstance', rng.choice(sorted(TYPES)))
         yield ('user', 1)
+        yield ('user', 3)
 
     def cases(self, rng, tier):
         n = 60 if tier == 'quick' else 800
